@@ -445,6 +445,9 @@ func (vc *VC) typeFacts(s *State, t types.Type, e Term, depth int) Term {
 	case *types.Interface:
 		// a value of a non-empty interface type is nil or of a dynamic type that implements it
 		if u.NumMethods() > 0 && !vc.noDefine {
+			if f := vc.closedFact(t, e); f != "" {
+				return f
+			}
 			return or(app("(_ is dnil)", e), app(vc.implFun(t), e))
 		}
 	case *types.Struct:
